@@ -1175,6 +1175,10 @@ class Key(object):
                 else:
                     self.compressed = False
                 key_byte = key[1:]
+                if len(key_byte) != 32:
+                    raise BKeyError("Invalid WIF key, private key must be 32 bytes not %d" % len(key_byte))
+                if not 0 < int.from_bytes(key_byte, 'big') < secp256k1_n:
+                    raise BKeyError("Invalid WIF key, private key must be between 1 and secp256k1_n - 1")
                 key_hex = key_byte.hex()
             else:
                 raise BKeyError("Unknown key format %s" % self.key_format)
